@@ -105,10 +105,15 @@ _rep = re.compile(r'\*(\d+)')
 _digits = re.compile(r'\d{4,}')
 
 
+_lorem_ctr = re.compile(r'(lorem\d{0,3})\$[$@^\d-]*', re.I)
+
+
 def bound_repeats(s, limit=300):
     """Keeps generated abbreviations cheap: digit runs ≤ 3 digits and the product of all `*N` counts ≤ limit.
     (Repeat counts and lorem word counts are legitimate work, not a termination question.)"""
     s = _digits.sub(lambda m: m.group(0)[:3], s)
+    # a counter spliced into a `lorem` word count (`lorem5$4` under `*31` → lorem5314: 87 MB of text, 18 s) is the same legitimate work in disguise
+    s = _lorem_ctr.sub(lambda m: m.group(1), s)
     for _ in range(4):
         prod = 1
         for m in _rep.finditer(s):
